@@ -10,7 +10,7 @@ use crate::gens::call::{self, CallCase, Profile};
 use crate::gens::value::TV;
 use crate::props::callsup::{self, Stats};
 
-pub const RULE: &str = "cases = stdlib calls from gens::call with the size-bounded profile (total argument size <= 4 KiB, strings up to 2 KiB in 18 % of string draws, integers biased to {i64::MIN, i64::MAX, 0, +-1, +-10^n, negative}, non-finite floats; one in nine array/object arguments is a small value nested 12-72 levels deep and one in thirty-one strings is a JSON-like text nested 8-140 levels deep, so that work repeated per nesting level multiplies up), every function of stdlib::all() except the IO/nondeterministic list (see C03). Each call runs in a killable worker (RLIMIT_AS 8 GiB) under a 5 s deadline enforced by the parent; a case that exceeds it is re-run alone in a fresh worker until that worker has consumed 20 s of CPU time (wall cap 90 s; if the cap passes first the run is repeated with all other shards paused, and if it passes again the case is inconclusive) and only then is a violation C05:<function>:hang:<class of first argument: its kind if literal/exactly typed, `anytyped` if any-typed>_arg (for a signature that is an open known finding and whose pinned replay was confirmed that way at the start of the run, later cases are run with a 0.5 s deadline and tallied under that signature: this can only add to the hit count of the known finding). A new (not yet known) hang signature is confirmed at most 4 times per run; after that its (function, argument class) is not run any more in that run, which has already failed on it (keeps shrinking a new hang affordable). Output growth: result size <= 64 KiB + 64 x input bytes + (input bytes)^2 (the square admits replace/join-like products of two argument sizes) unless an integer argument 0 <= n <= 10^4 explains it linearly ((n+1) x that bound) [growth]; a worker killed by allocation failure on these bounded inputs is a violation reported under the same `hang` signature (whether a runaway call is stopped by the deadline or by the memory limit depends on the machine). Non-trivial = the call reached the function body with an integer/float argument at an edge value (0, +-1, negative, |v| >= 2^31; non-finite, zero, subnormal, |x| >= 2^53 or < 1e-300) or a string argument >= 256 bytes (container arguments count through their leaves). Bounded integers (pure allocation size, out of scope by C04's statement): decode_lz4 buf_size in (2^24, u32::MAX] clamped to 2^24 (negative and larger values take the function's own too-large path and stay in), set path indices within +-64, encode_zstd compression_level (after the function's own i32 truncation) <= 19 because the ultra levels allocate ~730 MB whatever the input.";
+pub const RULE: &str = "cases = stdlib calls from gens::call with the size-bounded profile (total argument size <= 4 KiB, strings up to 2 KiB in 18 % of string draws, integers biased to {i64::MIN, i64::MAX, 0, +-1, +-10^n, negative}, non-finite floats; one in nine array/object arguments is a small value nested 12-72 levels deep and one in twenty-four strings is a JSON-like text nested 8-140 levels deep and one in forty-eight an XML chain of single-child elements 6-90 levels deep, so that work repeated per nesting level multiplies up), every function of stdlib::all() except the IO/nondeterministic list (see C03). Each call runs in a killable worker (RLIMIT_AS 8 GiB) under a 5 s deadline enforced by the parent; a case that exceeds it is re-run alone in a fresh worker until that worker has consumed 20 s of CPU time (wall cap 90 s; if the cap passes first the run is repeated with all other shards paused, and if it passes again the case is inconclusive) and only then is a violation C05:<function>:hang:<class of first argument: its kind if literal/exactly typed, `anytyped` if any-typed>_arg (for a signature that is an open known finding and whose pinned replay was confirmed that way at the start of the run, later cases are run with a 0.5 s deadline and tallied under that signature: this can only add to the hit count of the known finding). A new (not yet known) hang signature is confirmed at most 4 times per run; after that its (function, argument class) is not run any more in that run, which has already failed on it (keeps shrinking a new hang affordable). Output growth: result size <= 64 KiB + 64 x input bytes + (input bytes)^2 (the square admits replace/join-like products of two argument sizes) unless an integer argument 0 <= n <= 10^4 explains it linearly ((n+1) x that bound) [growth]; a worker killed by allocation failure on these bounded inputs is a violation reported under the same `hang` signature (whether a runaway call is stopped by the deadline or by the memory limit depends on the machine). Non-trivial = the call reached the function body with an integer/float argument at an edge value (0, +-1, negative, |v| >= 2^31; non-finite, zero, subnormal, |x| >= 2^53 or < 1e-300) or a string argument >= 256 bytes (container arguments count through their leaves). Bounded integers (pure allocation size, out of scope by C04's statement): decode_lz4 buf_size in (2^24, u32::MAX] clamped to 2^24 (negative and larger values take the function's own too-large path and stay in), set path indices within +-64, encode_zstd compression_level (after the function's own i32 truncation) <= 19 because the ultra levels allocate ~730 MB whatever the input.";
 pub const NOTE: &str = "wall-clock deadlines are far above any legitimate call (slowest observed legitimate calls are reported per function in evidence: max and p99 upper bound); a replayed case is run alone with the 20 s (CPU) limit directly, all pinned hang replays concurrently; panics and aborts are C04's business and pass here";
 
 static STATS: Stats = Stats::new();
